@@ -16,8 +16,12 @@ import (
 	"io"
 	"os"
 	"sort"
-	"sync/atomic"
+	"strconv"
+	"strings"
+	"sync"
 
+	"github.com/cockroachdb/pebble"
+	"github.com/cockroachdb/pebble/record"
 	"github.com/cockroachdb/pebble/vfs"
 
 	"github.com/LiskHQ/lisk-engine/pkg/blockchain"
@@ -32,47 +36,138 @@ import (
 // ---- sync-counting file system over strict MemFS ----
 type cfs struct {
 	vfs.FS
-	mem    *vfs.MemFS
-	syncs  int64 // syncs seen since arm()
-	limit  int64 // -1: unlimited; otherwise syncs beyond this count are dropped (SetIgnoreSyncs)
-	armed  bool
-	cutoff bool
+	mem       *vfs.MemFS
+	mu        sync.Mutex
+	syncs     int64 // syncs seen since arm()
+	walSyncs  int64 // syncs of a WAL file holding unsynced writes (= durable commits) since arm()
+	firstWal  int64 // index (1-based, among syncs) of the first / last such sync, 0 if none
+	lastWal   int64
+	newestWal *cfile
+	limit     int64 // -1: unlimited; otherwise syncs beyond this count are dropped (SetIgnoreSyncs)
+	armed     bool
+	cutoff    bool
 }
 
 type cfile struct {
 	vfs.File
-	fs *cfs
+	fs    *cfs
+	wal   bool
+	dirty bool
 }
 
+func (f *cfile) Write(p []byte) (int, error) {
+	f.fs.mu.Lock()
+	f.dirty = true
+	f.fs.mu.Unlock()
+	return f.File.Write(p)
+}
 func (f *cfile) Sync() error {
-	f.fs.onSync()
+	f.fs.onSync(f)
 	return f.File.Sync()
 }
-func (c *cfs) onSync() {
+func (c *cfs) onSync(f *cfile) {
+	c.mu.Lock()
+	defer c.mu.Unlock()
+	// a durable commit = a sync of the CURRENT write-ahead log while it holds unsynced writes (the closing sync of a log
+	// that pebble has already rotated away from carries no commit)
+	commit := f.wal && f.dirty && f == c.newestWal
+	f.dirty = false
 	if !c.armed {
 		return
 	}
-	n := atomic.AddInt64(&c.syncs, 1)
-	if c.limit >= 0 && n > c.limit && !c.cutoff {
+	c.syncs++
+	if commit {
+		c.walSyncs++
+		if c.firstWal == 0 {
+			c.firstWal = c.syncs
+		}
+		c.lastWal = c.syncs
+	}
+	if c.limit >= 0 && c.syncs > c.limit && !c.cutoff {
 		c.cutoff = true
 		c.mem.SetIgnoreSyncs(true)
 	}
 }
-func (c *cfs) wrap(f vfs.File, err error) (vfs.File, error) {
+func (c *cfs) wrap(name string, f vfs.File, err error) (vfs.File, error) {
 	if err != nil {
 		return nil, err
 	}
-	return &cfile{File: f, fs: c}, nil
+	return &cfile{File: f, fs: c, wal: strings.HasSuffix(name, ".log")}, nil
 }
-func (c *cfs) Create(name string) (vfs.File, error) { return c.wrap(c.FS.Create(name)) }
+func (c *cfs) wrapNew(name string, f vfs.File, err error) (vfs.File, error) {
+	w, err := c.wrap(name, f, err)
+	if err == nil && strings.HasSuffix(name, ".log") {
+		c.mu.Lock()
+		c.newestWal = w.(*cfile)
+		c.mu.Unlock()
+	}
+	return w, err
+}
+func (c *cfs) Create(name string) (vfs.File, error) {
+	f, err := c.FS.Create(name)
+	return c.wrapNew(name, f, err)
+}
 func (c *cfs) Open(name string, opts ...vfs.OpenOption) (vfs.File, error) {
-	return c.wrap(c.FS.Open(name, opts...))
+	f, err := c.FS.Open(name, opts...)
+	return c.wrap(name, f, err)
 }
-func (c *cfs) OpenDir(name string) (vfs.File, error) { return c.wrap(c.FS.OpenDir(name)) }
+func (c *cfs) OpenDir(name string) (vfs.File, error) {
+	f, err := c.FS.OpenDir(name)
+	return c.wrap("", f, err)
+}
 func (c *cfs) ReuseForWrite(o, n string) (vfs.File, error) {
-	return c.wrap(c.FS.ReuseForWrite(o, n))
+	f, err := c.FS.ReuseForWrite(o, n)
+	return c.wrapNew(n, f, err)
 }
 func (c *cfs) Lock(name string) (io.Closer, error) { return c.FS.Lock(name) }
+
+// walRecords counts, per write-ahead-log file, the commit records it holds (one record = one pebble batch commit).
+func walRecords(fs vfs.FS) map[string]int {
+	out := map[string]int{}
+	names, err := fs.List("db")
+	if err != nil {
+		return out
+	}
+	for _, name := range names {
+		if !strings.HasSuffix(name, ".log") {
+			continue
+		}
+		num, err := strconv.ParseUint(strings.TrimSuffix(name, ".log"), 10, 64)
+		if err != nil {
+			continue
+		}
+		f, err := fs.Open(fs.PathJoin("db", name))
+		if err != nil {
+			continue
+		}
+		rr := record.NewReader(f, pebble.FileNum(num))
+		cnt := 0
+		for {
+			r, err := rr.Next()
+			if err != nil {
+				break
+			}
+			if _, err := io.Copy(io.Discard, r); err != nil {
+				break
+			}
+			cnt++
+		}
+		_ = f.Close()
+		out[name] = cnt
+	}
+	return out
+}
+
+// commitsBetween = number of commit records appended to the write-ahead logs between two snapshots.
+func commitsBetween(before, after map[string]int) int64 {
+	n := 0
+	for name, c := range after {
+		if c > before[name] {
+			n += c - before[name]
+		}
+	}
+	return int64(n)
+}
 
 func newCFS() *cfs {
 	m := vfs.NewStrictMem()
@@ -89,13 +184,19 @@ func newCFS() *cfs {
 	return &cfs{FS: m, mem: m, limit: -1}
 }
 func (c *cfs) arm(limit int64) {
-	c.syncs, c.limit, c.armed, c.cutoff = 0, limit, true, false
+	c.mu.Lock()
+	defer c.mu.Unlock()
+	c.syncs, c.walSyncs, c.firstWal, c.lastWal, c.limit, c.armed, c.cutoff = 0, 0, 0, 0, limit, true, false
 	if limit == 0 {
 		c.cutoff = true
 		c.mem.SetIgnoreSyncs(true)
 	}
 }
-func (c *cfs) disarm() { c.armed = false }
+func (c *cfs) disarm() {
+	c.mu.Lock()
+	c.armed = false
+	c.mu.Unlock()
+}
 
 // ---- projection of the DB onto the keys of coq/Chain/Crash.v ----
 type Ent struct {
@@ -186,37 +287,49 @@ func canonDigest(n *exh.Node) string { return exh.Digest(canonDump(n)) }
 
 // ---- scenario ----
 type sstep struct {
-	kind   string // add | add_invalid | del | del_refused
+	kind   string // add | add_invalid | del | del_refused | restore
 	block  *blockchain.Block
 	script *exh.Script
 	save   bool
 }
 
 type StepRec struct {
-	K       string `json:"k"`
-	Sc      int    `json:"scenario"`
-	T       int    `json:"t"`
-	Op      string `json:"op"`
-	Expect  bool   `json:"expect_ok"`
-	ImplOK  bool   `json:"impl_ok"`
-	Class   string `json:"class"`
-	ID      string `json:"id"`
-	H       uint32 `json:"h"`
-	Save    bool   `json:"save"`
-	Syncs   int64  `json:"syncs"`
-	Before  []Ent  `json:"before"`
-	After   []Ent  `json:"after"`
-	DBefore string `json:"dg_before"`
-	DAfter  string `json:"dg_after"`
+	K        string `json:"k"`
+	Sc       int    `json:"scenario"`
+	Family   string `json:"family"`
+	T        int    `json:"t"`
+	Op       string `json:"op"`
+	Expect   bool   `json:"expect_ok"`
+	ImplOK   bool   `json:"impl_ok"`
+	Class    string `json:"class"`
+	ID       string `json:"id"`
+	H        uint32 `json:"h"`
+	Save     bool   `json:"save"`
+	RT       bool   `json:"rt"`
+	Syncs    int64  `json:"syncs"`
+	WalSyncs int64  `json:"wal_syncs"`
+	Commits  int64  `json:"commits"` // commit records appended to the write-ahead log during the step (= durable writes)
+	Bytes    int    `json:"payload_bytes"`
+	FinJump  uint32 `json:"fin_jump"`
+	Before   []Ent  `json:"before"`
+	After    []Ent  `json:"after"`
+	DBefore  string `json:"dg_before"`
+	DAfter   string `json:"dg_after"`
 }
 
 type CrashRec struct {
 	K          string   `json:"k"`
 	Sc         int      `json:"scenario"`
+	Family     string   `json:"family"`
 	T          int      `json:"t"`
 	Op         string   `json:"op"`
-	J          int64    `json:"j"` // syncs of the step that reached the disk
-	Syncs      int64    `json:"syncs"`
+	ID         string   `json:"id"`
+	H          uint32   `json:"h"`
+	RT         bool     `json:"rt"`
+	J          int64    `json:"j"`         // syncs of the step that reached the disk
+	Syncs      int64    `json:"syncs"`     // syncs the step issued in this run
+	FirstWal   int64    `json:"first_wal"` // position of the first / last WAL commit sync among them (0: none)
+	LastWal    int64    `json:"last_wal"`
 	Before     []Ent    `json:"before"`
 	After      []Ent    `json:"after"`
 	Recovered  []Ent    `json:"recovered"`
@@ -236,8 +349,127 @@ func runStep(n *exh.Node, s sstep) exh.Result {
 	switch s.kind {
 	case "add", "add_invalid":
 		return n.ProcessValidated(s.block, false)
+	case "restore":
+		return n.ProcessValidated(s.block, true)
 	default:
 		return n.DeleteBlock(n.Tip(), s.save)
+	}
+}
+
+type planner struct {
+	n       *exh.Node
+	r       *hx.Rng
+	family  string
+	scripts map[string]*exh.Script
+	pending []*blockchain.Block // blocks deleted with saveTemp, lowest height last; restored in order
+	seq     int
+}
+
+func (p *planner) events(h uint32) *exh.Script {
+	s := &exh.Script{}
+	for i := p.r.Intn(3); i > 0; i-- {
+		s.BeforeEvents = append(s.BeforeEvents, exh.MakeEvent(p.r.U64(), h, 1+p.r.Intn(2)))
+	}
+	return s
+}
+
+func (p *planner) addStep(bo exh.Build, invalid bool) sstep {
+	n := p.n
+	s := sstep{kind: "add", script: p.events(n.Tip().Header.Height + 1)}
+	n.ABI.S = s.script
+	s.block = n.NextValid(bo)
+	p.scripts[hex.EncodeToString(s.block.Header.ID)] = s.script
+	if invalid {
+		s.kind = "add_invalid"
+		if p.r.Bool() {
+			s.block.Header.Signature[5] ^= 2
+			s.block.Header.Init()
+		} else {
+			s.script = &exh.Script{FailCommit: true, BeforeEvents: s.script.BeforeEvents}
+		}
+	}
+	return s
+}
+
+func (p *planner) bigTxs(count int) []*blockchain.Transaction {
+	txs := make([]*blockchain.Transaction, count)
+	for i := range txs {
+		p.seq++
+		txs[i] = exh.MakeTx(uint64(500000+p.seq), 14000)
+	}
+	return txs
+}
+
+// next decides the next step of the scenario from the current state.
+func (p *planner) next(t int) sstep {
+	n, r := p.n, p.r
+	tip := n.Tip().Header
+	fin, _ := n.Finalized()
+	// blocks waiting in the temp table are restored first (lowest height first), most of the time
+	if len(p.pending) > 0 && r.Intn(4) > 0 {
+		b := p.pending[len(p.pending)-1]
+		if b.Header.Height == tip.Height+1 {
+			p.pending = p.pending[:len(p.pending)-1]
+			return sstep{kind: "restore", block: b, script: p.scripts[hex.EncodeToString(b.Header.ID)]}
+		}
+		p.pending = nil
+	}
+	switch p.family {
+	case "big":
+		switch {
+		case t == 1 || t == 4:
+			return p.addStep(exh.Build{Txs: p.bigTxs(100 + r.Intn(250))}, false) // 1.4 .. 4.9 MiB of payload
+		case (t == 2 || t == 5) && tip.Height > fin:
+			p.pending = append(p.pending, n.Tip())
+			return sstep{kind: "del", save: true, script: &exh.Script{}}
+		}
+	case "restore":
+		if t%5 == 3 {
+			// delete up to 3 tips with saveTemp (decided one step at a time)
+			if tip.Height > fin && tip.Height > 0 {
+				p.pending = append(p.pending, n.Tip())
+				return sstep{kind: "del", save: true, script: &exh.Script{}}
+			}
+		}
+		if t%5 == 4 && len(p.pending) > 0 && tip.Height > fin && tip.Height > 0 && r.Bool() {
+			p.pending = append(p.pending, n.Tip())
+			return sstep{kind: "del", save: true, script: &exh.Script{}}
+		}
+	case "jump":
+		// validator 0 (weight 1) forges a run, then validator 1 (weight 3) forges two blocks: prevotes then precommits for
+		// the whole run at once
+		by := n.Vals[0]
+		if t%6 >= 3 {
+			by = n.Vals[1]
+		}
+		return p.addStep(exh.Build{By: by}, false)
+	}
+	c := r.Intn(100)
+	switch {
+	case c < 60 || tip.Height == 0:
+		bo := exh.Build{}
+		if r.Intn(3) == 0 {
+			bo.Txs = []*blockchain.Transaction{exh.MakeTx(r.U64()%100000, r.Intn(30)), exh.MakeTx(r.U64()%100000, 3)}
+		}
+		if r.Intn(3) == 0 {
+			bo.Assets = []*blockchain.BlockAsset{{Module: "random", Data: r.Bytes(6)}}
+		}
+		if r.Intn(4) == 0 {
+			bo.SkipSlots = 1 + r.Intn(2)
+		}
+		return p.addStep(bo, false)
+	case c < 70:
+		return p.addStep(exh.Build{}, true)
+	case tip.Height <= fin:
+		return sstep{kind: "del_refused", script: &exh.Script{}}
+	default:
+		s := sstep{kind: "del", save: r.Bool(), script: &exh.Script{}}
+		if s.save {
+			p.pending = append(p.pending, n.Tip())
+		} else {
+			p.pending = nil
+		}
+		return s
 	}
 }
 
@@ -256,10 +488,22 @@ func main() {
 			os.Exit(3)
 		}
 	}()
+	families := []string{"big", "restore", "jump", "random"}
 	for sc := 0; sc < *scen; sc++ {
+		family := families[sc%len(families)]
 		opt := exh.Options{N: 1 + r.Intn(4)}
 		if r.Intn(2) == 0 {
 			opt.KeepEvents, opt.KeepEventsSet = r.Intn(3), true
+		}
+		nsteps := *steps
+		switch family {
+		case "big":
+			opt.MaxTxLen = 8 << 20
+			if nsteps > 7 {
+				nsteps = 7
+			}
+		case "jump":
+			opt.N, opt.Weights, opt.PreCommit, opt.Certificate = 2, []uint64{1, 3}, 3, 3
 		}
 		// ---- phase A: build the scenario on a counting FS, record the op log ----
 		fsA := newCFS()
@@ -270,73 +514,46 @@ func main() {
 			panic(err)
 		}
 		opt.GenesisTime = n.Opt.GenesisTime
+		pl := &planner{n: n, r: r, family: family, scripts: map[string]*exh.Script{}}
 		var plan []sstep
 		var recs []StepRec
 		var dumpsA [][]exh.KV
-		for t := 0; t < *steps; t++ {
-			var s sstep
+		for t := 0; t < nsteps; t++ {
+			s := pl.next(t)
 			tip := n.Tip().Header
-			fin, _ := n.Finalized()
-			c := r.Intn(100)
-			switch {
-			case c < 60 || tip.Height == 0:
-				s.kind = "add"
-			case c < 70:
-				s.kind = "add_invalid"
-			case tip.Height <= fin:
-				s.kind = "del_refused"
-			default:
-				s.kind = "del"
-				s.save = r.Bool()
-			}
-			if s.kind == "add" || s.kind == "add_invalid" {
-				s.script = &exh.Script{}
-				for i := r.Intn(3); i > 0; i-- {
-					s.script.BeforeEvents = append(s.script.BeforeEvents, exh.MakeEvent(r.U64(), tip.Height+1, 1+r.Intn(2)))
-				}
-				bo := exh.Build{}
-				if r.Intn(3) == 0 {
-					bo.Txs = []*blockchain.Transaction{exh.MakeTx(r.U64()%100000, r.Intn(30)), exh.MakeTx(r.U64()%100000, 3)}
-				}
-				if r.Intn(3) == 0 {
-					bo.Assets = []*blockchain.BlockAsset{{Module: "random", Data: r.Bytes(6)}}
-				}
-				if r.Intn(4) == 0 {
-					bo.SkipSlots = 1 + r.Intn(2)
-				}
-				n.ABI.S = s.script
-				s.block = n.NextValid(bo)
-				if s.kind == "add_invalid" {
-					if r.Bool() {
-						s.block.Header.Signature[5] ^= 2
-						s.block.Header.Init()
-					} else {
-						s.script = &exh.Script{FailCommit: true, BeforeEvents: s.script.BeforeEvents}
-					}
-				}
-			} else {
-				s.script = &exh.Script{}
-			}
-			rec := StepRec{K: "step", Sc: sc, T: t, Op: s.kind, Expect: s.kind == "add" || s.kind == "del", Save: s.save,
-				Before: project(n), DBefore: canonDigest(n)}
+			fin0, _ := n.Finalized()
+			rec := StepRec{K: "step", Sc: sc, Family: family, T: t, Op: s.kind, Expect: s.kind == "add" || s.kind == "del" || s.kind == "restore",
+				Save: s.save, RT: s.kind == "restore", Before: project(n), DBefore: canonDigest(n)}
 			if s.block != nil {
 				rec.ID, rec.H = hex.EncodeToString(s.block.Header.ID), s.block.Header.Height
+				for _, tx := range s.block.Transactions {
+					rec.Bytes += tx.Size()
+				}
 			} else {
 				rec.ID, rec.H = hex.EncodeToString(tip.ID), tip.Height
 			}
 			dumpsA = append(dumpsA, canonDump(n))
+			wal0 := walRecords(fsA.mem)
 			fsA.arm(-1)
 			res := runStep(n, s)
 			fsA.disarm()
-			rec.Syncs, rec.ImplOK, rec.Class = fsA.syncs, res.OK(), exh.ErrClass(res)
+			rec.Commits = commitsBetween(wal0, walRecords(fsA.mem))
+			rec.Syncs, rec.WalSyncs, rec.ImplOK, rec.Class = fsA.syncs, fsA.walSyncs, res.OK(), exh.ErrClass(res)
+			if s.kind == "restore" && !res.OK() {
+				rec.Expect = false // a restored block whose parent is gone is rejected; nothing may change
+				pl.pending = nil
+			}
+			fin1, _ := n.Finalized()
+			rec.FinJump = fin1 - fin0
 			rec.After, rec.DAfter = project(n), canonDigest(n)
 			plan = append(plan, s)
 			recs = append(recs, rec)
 			o.Put(rec)
 		}
+		dumpsA = append(dumpsA, canonDump(n))
 		// ---- phase B: every sync boundary of every step ----
 		for t, s := range plan {
-			for j := int64(0); j <= recs[t].Syncs; j++ {
+			for j := int64(0); ; j++ {
 				fsB := newCFS()
 				optB := opt
 				optB.FS = fsB
@@ -353,11 +570,19 @@ func main() {
 				fsB.arm(j)
 				runStep(nb, s)
 				// the process dies here: whatever was not synced is lost
-				_ = nb.DB.Close()
+				fsB.mu.Lock()
+				total, firstWal, lastWal := fsB.syncs, fsB.firstWal, fsB.lastWal
+				fsB.mu.Unlock()
+				if !fsB.cutoff {
+					// every sync of the step reached the disk: nothing more may (syncs issued by Close belong to no step)
+					fsB.mem.SetIgnoreSyncs(true)
+				}
 				fsB.disarm()
+				_ = nb.DB.Close()
 				fsB.mem.ResetToSyncedState()
 				fsB.mem.SetIgnoreSyncs(false)
-				cr := CrashRec{K: "crash", Sc: sc, T: t, Op: s.kind, J: j, Syncs: recs[t].Syncs, Before: recs[t].Before, After: recs[t].After}
+				cr := CrashRec{K: "crash", Sc: sc, Family: family, T: t, Op: s.kind, ID: recs[t].ID, H: recs[t].H, RT: recs[t].RT, J: j,
+					Syncs: total, FirstWal: firstWal, LastWal: lastWal, Before: recs[t].Before, After: recs[t].After}
 				optR := optB
 				func() {
 					defer func() {
@@ -376,8 +601,12 @@ func main() {
 					cr.EqBefore, cr.EqAfter = dg == recs[t].DBefore, dg == recs[t].DAfter
 					if !cr.EqBefore && !cr.EqAfter {
 						cr.DiffBefore = exh.DiffKeys(canonDump(nr), dumpsA[t])
-						if t+1 < len(dumpsA) {
-							cr.DiffAfter = exh.DiffKeys(canonDump(nr), dumpsA[t+1])
+						cr.DiffAfter = exh.DiffKeys(canonDump(nr), dumpsA[t+1])
+						if len(cr.DiffBefore) > 10 {
+							cr.DiffBefore = cr.DiffBefore[:10]
+						}
+						if len(cr.DiffAfter) > 10 {
+							cr.DiffAfter = cr.DiffAfter[:10]
 						}
 					}
 					cr.TipHeight = nr.Tip().Header.Height
@@ -387,8 +616,12 @@ func main() {
 					if !res.OK() {
 						cr.NextErr = exh.ErrClass(res)
 					}
+					_ = nr.DB.Close()
 				}()
 				o.Put(cr)
+				if j >= total {
+					break
+				}
 			}
 		}
 	}
